@@ -994,6 +994,15 @@ func extractEncoder(p *Program, typeName string) ([]string, []string) {
 				return e2, nil
 			}
 			dbg("SSA encoder extraction of %s: %v %v", typeName, x2, lcx.errs)
+			if typeName == "Header" {
+				// third reader: symbolic evaluation of the octets returned (staged pieces, append chains)
+				lcy := &layoutCtx{p: p, pkg: p.Root(), info: p.Root().TypesInfo, vars: map[types.Object]string{}}
+				e3, x3 := extractHeaderEncoderSym(p, p.localInlined(ef), lcy)
+				if len(x3)+len(lcy.errs) == 0 {
+					return e3, nil
+				}
+				dbg("symbolic encoder extraction of %s: %v %v", typeName, x3, lcy.errs)
+			}
 		}
 	}
 	return out, errs
@@ -1001,7 +1010,7 @@ func extractEncoder(p *Program, typeName string) ([]string, []string) {
 
 func extractDecoder(p *Program, typeName string) ([]string, []string) {
 	out, errs := extractDecoderAST(p, typeName)
-	if len(errs) > 0 && (typeName == "Header" || typeName == "Packet") {
+	if (len(errs) > 0 || len(out) == 0) && (typeName == "Header" || typeName == "Packet") {
 		if df := p.LookupFunc("", typeName+".UnmarshalBinary"); df != nil {
 			lcx := &layoutCtx{p: p, pkg: p.Root(), info: p.Root().TypesInfo, vars: map[types.Object]string{}}
 			var d2, x2 []string
